@@ -680,7 +680,9 @@ def _setdef(v, pairs):
 REG_EVENTS = [['append', 'reg_pix'], ['append', 'strx'], ['append', 'none'],
               ['extend', ['reg_pix2']], ['extend', ['reg_pix', 'strx']], ['extend', ['strx', 'reg_pix']], ['extend_regions', ['reg_sky']],
               ['extend', []], ['insert', 0, 'reg_sky'], ['insert', 0, 'strx'], ['insert', 1, 'none'], ['insert', -1, 'int5'],
-              ['pop'], ['reverse']]
+              ['pop'], ['reverse'],
+              # item and slice assignment of non-regions (whether or not the list supports item assignment at all)
+              ['setitem', 0, 'strx'], ['setslice', ['int5', 'none']], ['setslice_all', ['reg_sky', 'strx']], ['setslice_insert', ['none']]]
 
 
 def explore_regions(res, tier, run=True):
@@ -707,6 +709,14 @@ def explore_regions(res, tier, run=True):
                     obj.pop()
             elif ev[0] == 'reverse':
                 obj.reverse()
+            elif ev[0] == 'setitem':
+                obj[ev[1]] = V(ev[2])
+            elif ev[0] == 'setslice':
+                obj[0:2] = [V(v) for v in ev[1]]
+            elif ev[0] == 'setslice_all':
+                obj[:] = [V(v) for v in ev[1]]
+            elif ev[0] == 'setslice_insert':
+                obj[1:1] = [V(v) for v in ev[1]]
         except Exception as exc:
             return 'raise:' + _ename(exc)
         return 'ok'
